@@ -11,6 +11,8 @@
 //	weights n start step      SaveStoreWeight for n stores (bit patterns 1.5+k ulp / 2.0+k ulp)
 //	corrupt id                an unreadable record under the region key of id, written below core.Storage
 //	loadonce [errpattern]     LoadRegionsOnce with CheckAndPutRegion of a fresh BasicCluster
+//	pad n                     region keys get n filler bytes (fat regions)
+//	switch default|region     SwitchToDefaultStorage / SwitchToRegionStorage on a Storage with a region storage
 //	failflush | failregion r  Flush / SaveRegion of the region backend while every leveldb write fails
 //	open rsg ; race id        region storage on a leveldb whose journal writes can be parked: DeleteRegion(id) is
 //	                          parked inside its leveldb delete, Flush is started, the delete is released
@@ -128,6 +130,7 @@ type world struct {
 	rs      *core.RegionStorage
 	rsCtx   context.Context
 	rsStop  context.CancelFunc
+	sel     bool // the region storage is selected (SwitchToRegionStorage)
 	gated   bool // backend rsg
 	gate    *gate
 	gstor   storage.Storage // the file storage below the gated leveldb (closed by the harness)
@@ -197,7 +200,9 @@ func (w *world) openRS() {
 	}
 	w.rs = rs
 	w.st = core.NewStorage(w.raw, core.WithRegionStorage(rs))
-	w.st.SwitchToRegionStorage()
+	if w.sel {
+		w.st.SwitchToRegionStorage()
+	}
 }
 
 func u(s string) uint64 {
@@ -208,16 +213,23 @@ func u(s string) uint64 {
 	return n
 }
 
+// keyPad: region keys are the 10-digit number followed by keyPad filler bytes ("fat" regions whose metas make a
+// page of a range scan several MB large); the numbers, and so the model, stay the same
+var keyPad int
+
 func keyOf(n uint64) []byte {
 	if n == 0 {
 		return nil
 	}
-	return []byte(fmt.Sprintf("%010d", n))
+	return []byte(fmt.Sprintf("%010d", n) + strings.Repeat("x", keyPad))
 }
 
 func keyNum(b []byte) uint64 {
 	if len(b) == 0 {
 		return 0
+	}
+	if len(b) > 10 {
+		b = b[:10]
 	}
 	n, err := strconv.ParseUint(string(b), 10, 64)
 	if err != nil {
@@ -334,7 +346,7 @@ func errName(err error) string {
 // listRegions reads the region namespace of the backend directly (no paging, no Storage code)
 func (w *world) listRegions() []ritem {
 	var b kv.Base = w.raw
-	if w.rs != nil {
+	if w.rs != nil && w.sel {
 		b = w.rs
 	}
 	keys, vals, err := b.LoadRange("raft/r/", "raft/r0", 0)
@@ -375,6 +387,7 @@ func (w *world) exec(op string) string {
 		return bad
 	}
 	if f[0] == "reset" && len(f) == 1 {
+		keyPad = 0
 		w.closeCurrent()
 		w.seq++
 		return "ok"
@@ -398,6 +411,7 @@ func (w *world) exec(op string) string {
 			w.raw = kv.NewMemoryKV()
 			w.rsDir = fmt.Sprintf("%s/rs%d", w.base, w.seq)
 			w.gated = f[1] == "rsg"
+			w.sel = true
 			w.openRS()
 		default:
 			return bad
@@ -455,9 +469,27 @@ func (w *world) exec(op string) string {
 			return bad // reserved: this is how an unreadable record is written down
 		}
 		return errName(st.SaveRegion(parseMeta(f[1])))
+	case f[0] == "pad" && len(f) == 2:
+		if u(f[1]) > 1<<16 {
+			return bad
+		}
+		keyPad = int(u(f[1]))
+		return "ok"
+	case f[0] == "switch" && len(f) == 2 && (f[1] == "default" || f[1] == "region"):
+		// which backend SaveRegion / DeleteRegion / LoadRegion(s) use; the region storage and its pending batch stay
+		if w.rs == nil {
+			return bad
+		}
+		w.sel = f[1] == "region"
+		if w.sel {
+			st.SwitchToRegionStorage()
+		} else {
+			st.SwitchToDefaultStorage()
+		}
+		return "ok"
 	case f[0] == "failregion" && len(f) == 2:
 		// SaveRegion while the leveldb write fails (noticed only by the save that fills the batch)
-		if w.rs == nil {
+		if w.rs == nil || !w.sel {
 			return bad
 		}
 		if it := itemOf(parseMeta(f[1])); it.s == 0 && it.e == 0 && it.cv == 0 && it.v == 0 {
@@ -472,7 +504,7 @@ func (w *world) exec(op string) string {
 	case f[0] == "corrupt" && len(f) == 2:
 		key := fmt.Sprintf("raft/r/%020d", u(f[1]))
 		var b kv.Base = w.raw
-		if w.rs != nil {
+		if w.rs != nil && w.sel {
 			b = w.rs.LeveldbKV
 		}
 		return errName(b.Save(key, "\xff\xff not a region"))
@@ -487,7 +519,7 @@ func (w *world) exec(op string) string {
 		}
 		return "ok"
 	case f[0] == "race" && len(f) == 2:
-		if w.rs == nil || !w.gated {
+		if w.rs == nil || !w.gated || !w.sel {
 			return bad
 		}
 		// DeleteRegion is parked inside its leveldb delete; a Flush is started (it blocks on the storage mutex
